@@ -66,12 +66,16 @@ class TranslatorPython(Translator):
                     (1 << expr.size) - 1
                 )
             else:
+                # Integer division ("/" is the float division in Python 3)
+                operator = "//" if expr.op == "/" else expr.op
                 return "((%s) & 0x%x)" % (
-                    (" %s " % expr.op).join(args),
+                    (" %s " % operator).join(args),
                     (1 << expr.size) - 1
                 )
         elif expr.op == "parity":
-            return "(%s & 0x1)" % self.from_expr(expr.args[0])
+            # 1 if the low byte has an even number of bits set
+            arg = self.from_expr(expr.args[0])
+            return "((0x9669 >> ((%s ^ (%s >> 4)) & 0xf)) & 0x1)" % (arg, arg)
         elif expr.op == "==":
             return self.from_expr(
                 ExprCond(expr.args[0] - expr.args[1], ExprInt(0, 1), ExprInt(1, 1))
